@@ -227,4 +227,38 @@ theorem C13_full_remove {s s' : State} (hr : Reach13 s) {w : Wl} (hw : s.wl = so
       omega
   · cases hh
 
+/-! ## Non-vacuity: a concrete tiered history (kernel-evaluated) -/
+
+def exG13 : Nat := Gen.sg_utils_GENESIS_MINT_START_TIME
+
+def exStage13 (n a b : Nat) : Stage := { name := n, start := exG13 + a, stop := exG13 + b, denom := 0, price := 5, pal := 2, mcl := none }
+
+def exMsgTiered : InstMsg :=
+  { admins := [10], adminsMutable := true, start := 0, end_ := 0, mintPrice := ⟨0, 0⟩, perAddr := 0,
+    memberLimit := 5, whaleCap := none, members := [], stages := [exStage13 1 100 200, exStage13 2 200 300],
+    stageMembers := [[(20, 0)], [(21, 0), (20, 0)]], roots := [], uriOk := true, uris := none, discountBps := none }
+
+def exOps13 : List Op :=
+  [.fund 10 ⟨0, 1000000000⟩,
+   .instantiate Variant.tieredV 10 [⟨0, 100000000⟩] 1000 exMsgTiered,
+   .exec 10 [] (.addStage (exStage13 3 300 400) [(22, 0)]),
+   .exec 10 [] (.updateStageConfig ⟨1, none, none, some (exG13 + 290), none, none, none⟩),
+   .exec 30 [] (.removeStage 2),
+   .setTime (exG13 + 200),
+   .exec 10 [] (.removeStage 0),
+   .exec 10 [] (.removeStage 2)]
+
+/-- three stages touching at 200, the admin shortens stage 2, a stranger cannot remove, a started stage cannot be removed, the
+unstarted third one can; at instant `G+200` two windows contain the clock and the earlier one is reported -/
+example : ((run (init exG13) exOps13).wl.map fun w =>
+      (w.stages.map (fun st => (st.start - exG13, st.stop - exG13)), w.numMembers, w.smembers.map (·.count),
+       activeIdx w (exG13 + 200), qHasMember w (exG13 + 200) 21, qHasMember w (exG13 + 201) 21)) =
+    some ([(100, 200), (200, 290)], 3, [1, 2], some 0, some false, some true) := by rfl
+
+example : Tier Variant.tieredV ∧ Tier Variant.tieredFlex ∧ Tier Variant.tieredMerkle := by
+  refine ⟨⟨rfl, by decide⟩, ⟨rfl, by decide⟩, ⟨rfl, by decide⟩⟩
+
+/-- the hypothesis of the reachability theorems is satisfied by every run from a fresh chain, e.g. this one -/
+example : Reach13 (run (init exG13) exOps13) := C13_full_reachable exG13 exOps13
+
 end LP
